@@ -270,6 +270,24 @@ def step (mode : Mode) (st : St) (pre post : List String) : St × Verdict :=
           if mode == .c14 && stateMoved && !authorized then
             some (if ln.env.height = haltHeight then "unauthorized-at-halt-height" else "unauthorized-tx-changed-state",
                   s!"raw={ln.raw} h={ln.env.height}")
+          else if mode == .c14 && !probeOnly && code.isOK && implProbePass &&
+              (match ln.tx with
+               | none => false
+               | some tx =>
+                 let keyAddr := (ln.keys.find? (fun k => s!"pass:{k.id}" = probe)).map (·.addr)
+                 if tx.msg.type == Bytes.ofString "begin_unstake_validator" || tx.msg.type == Bytes.ofString "unjail_validator" then
+                   match tx.msg.signers with
+                   | [ms, node] =>
+                     (match ln.world.valOutput node with
+                      | some out => !validateValidatorMsgSigner node out ms
+                      | none => true)
+                   | _ => false
+                 else match tx.msg.kind, keyAddr with
+                   | .nodeStake op, some ka =>
+                     let newOut := match tx.msg.signers with | [_, o] => (if o = [] then none else some o) | _ => none
+                     !stakeSignerChecks ln.env.ncust ln.env.oedit op (ln.world.valOutput op) newOut ka
+                   | _, _ => false) then
+            some ("handler-accepted-unauthorized-signer", s!"raw={ln.raw} h={ln.env.height}")
           -- C15
           else if mode == .c15 && implRejected && stateMoved then
             some ("ante-reject-moved-funds", s!"raw={ln.raw} code={renderResult code}")
